@@ -10,6 +10,9 @@ pub mod c14;
 pub mod contract;
 pub mod cgen;
 pub mod cview;
+pub mod sgen;
+pub mod sprops;
+pub mod sview;
 
 use crate::sim::runner::{run_prop, RunArgs};
 
@@ -18,7 +21,11 @@ pub fn dispatch(id: &str, args: &RunArgs) -> i32 {
         "C01" => run_prop(&c01::C01, args),
         "C02" => run_prop(&c02::C02, args),
         "C03" => run_prop(&c03::C03, args),
+        "C04" => run_prop(&wrap::C04, args),
         "C05" => run_prop(&c05::C05, args),
+        "C06" => run_prop(&wrap::C06, args),
+        "C08" => run_prop(&wrap::C08, args),
+        "C12" => run_prop(&wrap::C12, args),
         "C09" => run_prop(&wrap::C09, args),
         "C10" => run_prop(&wrap::C10, args),
         "C11" => run_prop(&wrap::C11, args),
